@@ -214,7 +214,7 @@ def decided_bits(p: Path, origin: str) -> int:
 
 def site_events(repo: Repo, module: str, qual: str, site_pred: Callable[[ast.Call], bool], values: dict[str, Any] | None = None,
                 attrs: dict[str, Any] | None = None, self_cls: str | None = None, max_paths: int = 20000,
-                **kw: Any) -> list[tuple[ast.Call, list[tuple[Path, tuple]]]]:
+                keep_exits: bool = False, all_paths: bool = False, **kw: Any) -> list[tuple[ast.Call, list]]:
     """For every call site of interest in a function: the (path, call event) pairs of that site.
 
     Each site gets its own backward slice (the statements that feed its arguments and the tests that guard it; loops without
@@ -226,7 +226,7 @@ def site_events(repo: Repo, module: str, qual: str, site_pred: Callable[[ast.Cal
     sites = sorted([c for c in walk_no_nested(fi.node) if isinstance(c, ast.Call) and site_pred(c)], key=lambda c: (c.lineno, c.col_offset))
     out = []
     for c0 in sites:
-        sl = slice_function(fi, set(), keep_exits=False, keep_call=lambda c, c0=c0: c is c0, name=f'site@{c0.lineno}')
+        sl = slice_function(fi, set(), keep_exits=keep_exits, keep_call=lambda c, c0=c0: c is c0, name=f'site@{c0.lineno}')
 
         def lm(st: ast.AST, c0: ast.Call = c0) -> str:
             return 'once' if any(x is c0 for x in ast.walk(st)) else 'skip'
@@ -241,5 +241,5 @@ def site_events(repo: Repo, module: str, qual: str, site_pred: Callable[[ast.Cal
         obj = Obj((module, self_cls or fi.cls), dict(attrs or {})) if fi.cls else None
         paths = ev.tabulate(sl, args, obj)
         hits = [(p, e) for p in paths for e in p.of('call') if e[4] is c0]
-        out.append((c0, hits))
+        out.append((c0, hits, paths) if all_paths else (c0, hits))
     return out
